@@ -786,7 +786,9 @@ WITNESSES = [
     {"name": "loop-skips-last", "file": _F, "rule": "C08.b", "old": "            else range(len(estimators))\n", "new": "            else range(len(estimators) - 1)\n"},
     {"name": "shared-generator", "file": _F, "rule": "C08.d", "old": "                seeds[i],\n", "new": "                rnd,\n"},
     {"name": "task-sorts-shared-y", "file": _F, "rule": "C08.d", "old": "    Xi = X[ind, :]\n    yi = y[ind]\n    sw = sample_weight[ind] if sample_weight is not None else None\n\n    if nb_classes", "new": "    Xi = X[ind, :]\n    yi = y[ind]\n    association[ind] = -2\n    sw = sample_weight[ind] if sample_weight is not None else None\n\n    if nb_classes"},
-    {"name": "predict-key-float", "file": _F, "rule": "C08.e", "old": "                d = tuple(numpy.asarray(x.todense()).ravel().astype(numpy.int32))\n                association[i] = self.mapping_.get(d, -1)", "new": "                d = tuple(numpy.asarray(x.todense()).ravel())\n                association[i] = self.mapping_.get(d, -1)"},
+    # (the former witness "predict-key-float", which only dropped the int32 cast at predict time, is gone: a tuple of
+    # 0.0/1.0 equals and hashes like the tuple of 0/1, so that edit does not break the lookup; it is now *unknown*)
+    {"name": "predict-key-truncated", "file": _F, "rule": "C08.e", "old": "                d = tuple(numpy.asarray(x.todense()).ravel().astype(numpy.int32))\n                association[i] = self.mapping_.get(d, -1)", "new": "                d = tuple(numpy.asarray(x.todense()).ravel().astype(numpy.int32)[:-1])\n                association[i] = self.mapping_.get(d, -1)"},
     {"name": "predict-unknown-zero", "file": _F, "rule": "C08.e", "old": "association[ind] = self.mapping_.get(j, -1)", "new": "association[ind] = self.mapping_.get(j, 0)"},
     {"name": "predict-init-zero", "file": _F, "rule": "C08.e", "old": "            association = numpy.zeros((X.shape[0],))\n            association[:] = -1\n            tr = binner.transform(X)\n", "new": "            association = numpy.zeros((X.shape[0],))\n            tr = binner.transform(X)\n"},
     {"name": "predict-mask-ge", "file": _F, "rule": "C08.e", "old": "            for j in self.leaves_:\n                ind = dec_path[:, j] == 1\n", "new": "            for j in self.leaves_:\n                ind = dec_path[:, j] >= 0\n"},
